@@ -41,8 +41,10 @@ Coords == {<<"expr", k, w>> : k \in {"bin", "un", "acc", "misc", "alt"}, w \in {
 CasesOf(k) ==
   CASE k[1] = "expr" -> {Pol("permit", AnyS, AnyS, AnyS, <<<<k[3], e>>>>, Anns[1]) : e \in Exprs(k[2])}
     [] k[1] = "scope" -> {Pol(eff, PScopes[k[2]], AScopes[a], RScopes[r], <<>>, Anns[n]) : eff \in {"permit", "forbid"}, a \in 1..Len(AScopes), r \in 1..Len(RScopes), n \in 1..Len(Anns)}
-    [] k[1] = "clauses" -> {Pol("forbid", PScopes[2], AnyS, RScopes[4], cs, Anns[3])
-                            : cs \in {<<>>, <<<<"when", Lf[1]>>, <<"unless", Lf[9]>>>>, <<<<"unless", Lf[1]>>, <<"unless", Lf[1]>>, <<"when", Bin("eq", Lf[2], Lf[2])>>>>}}
+    [] k[1] = "clauses" -> {Pol("forbid", pr, AnyS, RScopes[4], cs, Anns[3])
+                            : pr \in {PScopes[2], PScopes[6]},
+                              cs \in {<<>>} \cup {<<<<k1, Lf[1]>>, <<k2, Lf[9]>>>> : k1, k2 \in {"when", "unless"}}
+                                   \cup {<<<<k1, Lf[9]>>, <<k2, Bin("eq", Lf[2], Lf[2])>>, <<k3, Lf[1]>>>> : k1, k2, k3 \in {"when", "unless"}}}
 Init == coord \in Coords /\ c = <<>>
 Next == c = <<>> /\ c' \in CasesOf(coord) /\ UNCHANGED coord
 Dump == PrintT("CASE " \o ToJson([policy |-> c', est |-> EstOf(c'), alt |-> EstAltOf(c')]))
